@@ -927,7 +927,7 @@ Theorem G_notify_all_wakes_trace : forall sched g1 g2 es ok n j tn tu,
     cur (thread_at g2 j) = cur tu /\ results (thread_at g2 j) = results tu.
 Proof.
   intros sched g1 g2 es ok n j tn tu HR Hsm Hrun. rewrite grun in Hrun.
-  eapply notify_all_wakes_trace; eauto; [apply reach_inv; auto|apply gen_run_small_eq; auto].
+  eapply notify_all_wakes_trace; eauto; try (apply reach_inv; auto); try (apply gen_run_small_eq; auto).
 Qed.
 
 Theorem G_notify_one : forall g i t, Reach g -> nth_error (thr g) i = Some t ->
